@@ -191,6 +191,38 @@ Section WithFold.
       destruct (msg_op m); cbn in *; try reflexivity; rewrite ?andb_true_r; apply N.leb_le; exact Hsz.
   Qed.
 
+  (* histories: every served request is answered by the mux built from exactly
+     the registration calls made before it, whatever was served in between *)
+
+  Lemma run_events_from tagfix mx pre m post :
+    run_events eqfold tagfix mx (pre ++ EvServe m :: post) =
+    run_events eqfold tagfix mx pre ++
+    serve eqfold tagfix (fold_left (fun m g => fst (register m g)) (regs_of pre) mx) m ::
+    run_events eqfold tagfix (fold_left (fun m g => fst (register m g)) (regs_of pre) mx) post.
+  Proof.
+    revert mx. induction pre as [|e pre IH]; intros mx; cbn [app run_events regs_of flat_map fold_left].
+    - reflexivity.
+    - destruct e as [g|m']; cbn [app fold_left].
+      + rewrite IH. reflexivity.
+      + rewrite IH. reflexivity.
+  Qed.
+
+  Theorem run_events_history tagfix pre m post :
+    run_events eqfold tagfix mux_empty (pre ++ EvServe m :: post) =
+    run_events eqfold tagfix mux_empty pre ++
+    serve eqfold tagfix (build (regs_of pre)) m ::
+    run_events eqfold tagfix (build (regs_of pre)) post.
+  Proof. unfold build. apply run_events_from. Qed.
+
+  (* one answer per served request, in order *)
+  Theorem run_events_length tagfix mx evs :
+    length (run_events eqfold tagfix mx evs) =
+    length (List.filter (fun e => match e with EvServe _ => true | EvReg _ => false end) evs).
+  Proof.
+    revert mx. induction evs as [|e evs IH]; intros mx; [reflexivity|].
+    destruct e as [g|m]; cbn [run_events List.filter length]; rewrite IH; reflexivity.
+  Qed.
+
   (* the pinned refusal was an ExtendedResponse for every operation *)
   Lemma serve_refusal_pinned_refuted :
     exists resp, serve eqfold false mux_empty (MSearch 2 [] 0 0 0 0 false [] [] []) = Refuse resp /\
